@@ -86,6 +86,24 @@ Definition is_raises (c : coerced) : bool := match c with Raises _ => true | _ =
 Definition coll_obj (cls : string) (i : Z) : value := VObj cls [("child", VObj "Opaque" []); ("__tag__", VInt i)].
 Definition collection_classes := ["Array"; "Tuple"; "NTuple"; "Object"].
 
+(* a plain (non-Nada) Python value as the other operand of a comparison / membership test *)
+Definition plain_values : list (string * value) :=
+  [("int", VInt 0); ("int1", VInt 1); ("bool", VBool true); ("none", VNone); ("str", VStr "a"); ("float", VQuot 1 2)].
+
+(* x compared with the plain value p, in both operand orders *)
+Definition coerce_plain (G : genv) (r : route) (x p : value) : list coerced :=
+  match r with
+  | RChained | RMinMax =>
+      [truth_of_result G (dispatch_order G "__lt__" "__gt__" x p);
+       truth_of_result G (dispatch_order G "__lt__" "__gt__" p x);
+       truth_of_result G (dispatch_order G "__gt__" "__lt__" x p);
+       truth_of_result G (dispatch_order G "__le__" "__ge__" p x)]
+  | RMember =>
+      [truth_of_result G (dispatch_eq G "__eq__" x p); truth_of_result G (dispatch_eq G "__eq__" p x);
+       truth_of_result G (dispatch_eq G "__ne__" x p); truth_of_result G (dispatch_eq G "__ne__" p x)]
+  | _ => []
+  end.
+
 (* ---- observations of the implementation, as data *)
 Definition subject (cls : string) (i : Z) : value :=
   match sty_of_class cls with
@@ -95,6 +113,12 @@ Definition subject (cls : string) (i : Z) : value :=
 
 Definition model_raises (G : genv) (cls : string) (r : route) : bool :=
   is_raises (coerce G r (subject cls 0) (subject cls 1)).
+
+Definition model_raises_plain (G : genv) (cls : string) (r : route) (pname : string) : bool :=
+  match assoc pname plain_values with
+  | Some p => forallb is_raises (coerce_plain G r (subject cls 0) p)
+  | None => false
+  end.
 
 (* C07 read on an observed cell: every listed route must raise; iteration is only constrained
    for arrays (and scalars, which have no elements) *)
@@ -113,3 +137,11 @@ Definition coerce_violations (cs : list cell) : list Z :=
 Definition coerce_mismatches (G : genv) (cs : list cell) : list Z :=
   indices_where (fun c : cell => let '(cls, r, obs) := c in
                                  negb (forallb (fun b => Bool.eqb b (model_raises G cls r)) obs)) cs 0%Z.
+
+(* cells against a plain Python operand *)
+Definition pcell := (string * route * string * list bool)%type.
+Definition pcoerce_violations (cs : list pcell) : list Z :=
+  indices_where (fun c : pcell => let '(cls, r, p, obs) := c in negb (forallb (fun b => b) obs)) cs 0%Z.
+Definition pcoerce_mismatches (G : genv) (cs : list pcell) : list Z :=
+  indices_where (fun c : pcell => let '(cls, r, p, obs) := c in
+                                  negb (forallb (fun b => Bool.eqb b (model_raises_plain G cls r p)) obs)) cs 0%Z.
